@@ -54,7 +54,7 @@ fn main() -> anyhow::Result<()> {
     let context = validators::ValidationContext::new(blocks);
 
     if matches!(args.command, Some(flags::SubCommand::List { .. })) {
-        let report = context.to_serializable_report();
+        let report = with_printable_paths(context.to_serializable_report());
         return serde_json::to_writer_pretty(std::io::stdout(), &report)
             .context("Failed to list blocks");
     }
@@ -89,12 +89,27 @@ fn process_violations(violations: HashMap<PathBuf, Vec<Violation>>) -> anyhow::R
     }
 
     let mut stderr = std::io::stderr().lock();
-    serde_json::to_writer_pretty(&mut stderr, &diagnostics)?;
+    serde_json::to_writer_pretty(&mut stderr, &with_printable_paths(diagnostics))?;
     writeln!(&mut stderr)?;
     if has_error_severity {
         process::exit(1);
     }
     Ok(())
+}
+
+/// Keys a report by printable paths: the keys of a JSON object are strings, so a path that is not
+/// valid Unicode is written lossily instead of failing the run.
+fn with_printable_paths(
+    report: HashMap<PathBuf, Vec<serde_json::Value>>,
+) -> HashMap<String, Vec<serde_json::Value>> {
+    let mut result: HashMap<String, Vec<serde_json::Value>> = HashMap::with_capacity(report.len());
+    for (path, values) in report {
+        result
+            .entry(path.to_string_lossy().into_owned())
+            .or_default()
+            .extend(values);
+    }
+    result
 }
 
 fn repository_root_path(current_path: PathBuf) -> anyhow::Result<PathBuf> {
